@@ -306,7 +306,8 @@ def check_branch(case, texts, cond_names, F):
             return F.add("c08:%s:unexpected-instruction" % name, case, r[1])
         want = ("goto", d) if (name == "b" or truth == taken_if) else ("end",)
         if r != want:
-            return F.add("c08:%s:wrong-target" % name, case, "with the tested condition %s the sequence %s; requested %s" % (
+            form = "fallback" if len(texts) == 2 and (texts[1] or "").startswith("b ") else "direct"
+            return F.add("c08:%s:wrong-target-%s" % (name, form), case, "with the tested condition %s the sequence %s; requested %s" % (
                 truth, "goes to pc%+d" % r[1] if r[0] == "goto" else "falls through",
                 "pc%+d" % d if want[0] == "goto" else "fall through"))
 
@@ -396,8 +397,17 @@ PREDICATES = {"fits_movz", "fits_movn", "count_empty_half_words", "shift_movz", 
               "fits_ldst_unscaled"}
 
 
-def check_all(seq_path, cond_names, llvm, mattr, scratch):
-    cases = parse_seq(seq_path)
+def _baselines(cases):
+    """word(s) of the first emitted tuple per method (cases are sorted): the 'trivial' reference"""
+    base = {}
+    for c in cases:
+        if c["status"] == "emitted" and c["method"] not in base:
+            base[c["method"]] = c["words"]
+    return base
+
+
+def check_block(args):
+    cases, base, cond_names, llvm, mattr, scratch, tag = args
     F = Findings()
     stats = {}
     words, owner = [], []
@@ -406,7 +416,9 @@ def check_all(seq_path, cond_names, llvm, mattr, scratch):
             for w in c["words"]:
                 words.append(w)
                 owner.append(ci)
-    dis = disassemble(words, llvm, mattr, scratch)
+    sub = os.path.join(scratch, "sem%s" % tag)
+    os.makedirs(sub, exist_ok=True)
+    dis = disassemble(words, llvm, mattr, sub)
     texts = {}
     for w, ci, t in zip(words, owner, dis):
         texts.setdefault(ci, []).append(t)
@@ -425,9 +437,7 @@ def check_all(seq_path, cond_names, llvm, mattr, scratch):
             ref = predicate_reference(n, c["ops"])
             got = c["words"][0]
             st["checked"] += 1
-            if "baseline" not in st:
-                st["baseline"] = got
-            elif got != st["baseline"]:
+            if c["words"] != base.get(n):
                 st["nontrivial"] += 1
             if ref is not None and ref != got:
                 F.add("c08:%s:wrong-result" % n, rep, "returns %d, reference %d" % (got, ref))
@@ -463,10 +473,36 @@ def check_all(seq_path, cond_names, llvm, mattr, scratch):
         else:
             check_branch(rep, tx, cond_names, F)
         if sum(e["count"] for e in F.f.values()) == before:
-            if "baseline" not in st:
-                st["baseline"] = c["words"]     # first accepted tuple of the method in enumeration order
-            elif c["words"] != st["baseline"]:
+            if c["words"] != base.get(n):
                 st["nontrivial"] += 1
-            if len(samples) < 400 and (st["checked"] % 97 == 1):
-                samples.append(rep)
+                if st["nontrivial"] % 1009 == 5 and len(samples) < 50:
+                    samples.append(rep)
     return stats, F.f, samples
+
+
+def check_all(seq_path, cond_names, llvm, mattr, scratch, workers=1):
+    cases = parse_seq(seq_path)
+    cases.sort(key=lambda c: (c["method"], c["ops"]))
+    base = _baselines(cases)
+    nblocks = max(1, min(workers, len(cases) // 2000 + 1))
+    size = (len(cases) + nblocks - 1) // nblocks
+    jobs = [(cases[i * size:(i + 1) * size], base, cond_names, llvm, mattr, scratch, i) for i in range(nblocks)]
+    if nblocks > 1:
+        import multiprocessing
+        with multiprocessing.Pool(nblocks) as pool:
+            parts = pool.map(check_block, jobs)
+    else:
+        parts = [check_block(j) for j in jobs]
+    stats, findings, samples = {}, {}, []
+    for st, f, sm in parts:
+        for n, s in st.items():
+            t = stats.setdefault(n, dict.fromkeys(s, 0))
+            for k, v in s.items():
+                t[k] += v
+        for k, e in f.items():
+            t = findings.setdefault(k, {"count": 0, "examples": []})
+            t["count"] += e["count"]
+            t["examples"] = sorted(t["examples"] + e["examples"],
+                                   key=lambda c: (sum(min(abs(v), 1 << 40) for v in c["ops"]), c["ops"]))[:3]
+        samples += sm
+    return stats, findings, samples
